@@ -246,6 +246,11 @@ func runCase(o *hx.Out, k int, r *prng.R, corp []txPlan, natives bool) {
 	}
 	nblocks := r.Range(1, 2)
 	for b := 0; b < nblocks; b++ {
+		if natives && r.Chance(1, 7) {
+			o.Count("block:double-set-scenario")
+			v.runBlock(o, k, genDoubleSet(r, o, int(v.bc.BlockHeight())+1))
+			continue
+		}
 		ntx := []int{1, 1, 1, 2, 2, 3}[r.Intn(6)]
 		var plans []txPlan
 		for i := 0; i < ntx; i++ {
